@@ -11,7 +11,7 @@ for id in $IDS; do
   [ -f $pf ] || continue
   p=${id%%-*}
   rm -rf $S; mkdir -p $S
-  (cd /repo && git archive HEAD | tar -x -C $S)
+  (cd /repo && git archive HEAD | tar -x -C $S); cp /repo/Cargo.lock $S/ 2>/dev/null
   (cd $S && git init -q . && git apply $pf) || { echo "$id APPLY-FAILED" >> $OUT; continue; }
   VERIF_REPO=$S $ROOT/check $p > /var/tmp/mutant_last_$$.log 2>&1
   rc=$?
